@@ -38,7 +38,7 @@ from props.c05 import Action, linearize, make_ref, observed_of, final_matches
 ID = 'C06'
 COQ_PROP = 'C06'
 LEVEL = 'proof'
-TRANSLATE = ['sql', 'disk', 'persistent', 'fanout']
+TRANSLATE = ['sql', 'disk', 'persistent', 'fanout', 'format']
 TRUSTED = list(c05.TRUSTED) + [
     'the reference Deque (list) and Index (ordered dictionary) of harness/props/c05.py as the reading of "contents" for Deque/Index blocks',
 ]
